@@ -48,7 +48,7 @@ def _worker(job):
                 for m in ob["models"]:
                     try:
                         inputs = concretise(c, m)
-                        rep = replay_inputs(c, inputs)
+                        rep = c.replay_custom(inputs) if hasattr(c, "replay_custom") else replay_inputs(c, inputs)
                     except Exception as e:   # noqa
                         rep = dict(error=f"concretisation failed: {e!r}", failed=[], inputs={})
                     rep["model"] = {k: str(z3.simplify(t))[:1500] for k, t in m.items()}
@@ -60,7 +60,7 @@ def _worker(job):
         # encoding + vacuity witnesses; bounded, never counted as proof)
         if kind != "canary" and hasattr(c, "samples"):
             for inputs in c.samples(tier):
-                rep = replay_inputs(c, inputs)
+                rep = c.replay_custom(inputs) if hasattr(c, "replay_custom") else replay_inputs(c, inputs)
                 out["samples"].append(rep)
         out["wall"] = time.time() - t0
         return out
@@ -115,6 +115,8 @@ def main(argv=None):
         results = [_worker(j) for j in jobs]
 
     findings = [f for f in load_findings() if f.get("property") == pid and f.get("status", "open") == "open"]
+    import shutil
+    shutil.rmtree(os.path.join(ROOT, "replays", pid), ignore_errors=True)
     os.makedirs(os.path.join(ROOT, "replays", pid), exist_ok=True)
     violations, undecided, failures, known_lines = [], [], [], []
     n_obl = n_dis = 0
